@@ -416,8 +416,11 @@ def reference(world):
     imports = dict((m, [b for a, b in world.get('edges', []) if a == m]) for m in users)
 
     requested = list(world['req'])
-    todo = list(requested)
+    # requested names are FILE names (the modules inside may be called differently), names taken from IMPORTS clauses are
+    # MODULE names: a name may have to be looked up in both capacities
+    todo = [(m, True) for m in requested]
     seen = set()
+    looked = set()
     parsed = {}        # canonical name -> requested-name (alias)
     variant_of = {}    # canonical name -> variant number of the copy that counts
     kind_of = {}       # canonical name -> kind of the text it came in
@@ -425,6 +428,7 @@ def reference(world):
     requested_canon = set()
     order = []
     broken_imports = {}   # name a failure is recorded under -> modules its (parsed) IMPORTS clause names
+    asked_upto = {}       # name -> number of sources consulted for it so far
     while todo or broken_imports:
         if not todo:
             # C07: 'every module reachable through the IMPORTS of successfully PARSED modules' - a module whose symbol table
@@ -432,11 +436,12 @@ def reference(world):
             for name in sorted(broken_imports):
                 imps = broken_imports.pop(name)
                 if name in failed:
-                    todo.extend(imps)
+                    todo.extend((i, False) for i in imps)
             continue
-        m = todo.pop(0)
-        if m in seen:
+        m, req = todo.pop(0)
+        if (m, req) in looked:
             continue
+        looked.add((m, req))
         seen.add(m)
         if m in env.BASE_NAMES:
             continue
@@ -447,36 +452,42 @@ def reference(world):
             continue
         answers = [world.get('src', {}).get('%s%d' % (m, s), 'ok' if s == 0 else 'notfound') for s in range(nsrc)]
         accepted = False
+        source_failed = False      # a source failed on the NAME m (reader error, text that does not parse)
         for s, a in enumerate(answers):
+            if s < asked_upto.get(m, 0):
+                continue           # consulted when m was looked up in its other capacity: not asked again
+            asked_upto[m] = s + 1
             if a == 'error':
                 # a failure of this source; the later ones are still asked
                 failed[m] = set(['failed', 'missing'])
+                source_failed = True
                 continue
             if a != 'ok':
                 continue
             ents = file_entries(world, s, m)
             if ents is None:
                 failed[m] = set(['failed'])      # does not parse: a later source may do better
+                source_failed = True
                 continue
             if not ents:
-                failed.setdefault(m, set(['missing', 'failed']))   # a file without any module: as good as not found
-                continue
-            if len(ents) == 1 and not ents[0][1]:
-                # a file with one module whose symbol table cannot be built: the failure goes under the name asked for
-                failed[m] = set(['failed'])
-                broken_imports[m] = list(imports.get(m, []))
+                if m not in failed:
+                    failed[m] = set(['missing', 'failed'])   # a file without any module: as good as not found
+                    source_failed = True
                 continue
             broken_here = set()
             for c, ok, var in ents:
                 if c in parsed:
                     continue     # the copy that came first stays (sound or not, a further copy changes nothing)
                 if not ok:
+                    # the failure belongs to the MODULE, whatever name its file was found under
                     failed[c] = set(['failed'])
                     broken_here.add(c)
-                    base = c if c in users else None
+                    base = c if c in users else c[:-4] if c.endswith('REAL') and c[:-4] in users else None
                     if base:
                         broken_imports[c] = list(imports.get(base, []))
-                    if m in requested:
+                    if c == m:
+                        source_failed = False
+                    if req:
                         requested_canon.add(c)   # part of a requested file, like its sound modules
                     continue
                 parsed[c] = m
@@ -486,19 +497,22 @@ def reference(world):
                 failed.pop(c, None)   # could not be had before (asked for by name, or a broken copy precedes this one)
                 broken_here.discard(c)
                 broken_imports.pop(c, None)
-                if m in failed and m not in broken_here:
-                    del failed[m]     # an earlier source failed on this name, this one did not
-                if m in requested or c in requested:
+                if source_failed and m not in broken_here:
+                    failed.pop(m, None)     # an earlier source failed on this name, this one did not
+                    source_failed = False
+                if req:
                     requested_canon.add(c)
                 if c in users:
-                    todo.extend(imports.get(c, []))
+                    todo.extend((i, False) for i in imports.get(c, []))
                 elif c.endswith('REAL') and c[:-4] in users:
-                    todo.extend(imports.get(c[:-4], []))
+                    todo.extend((i, False) for i in imports.get(c[:-4], []))
             if m in broken_here:
                 continue      # the module asked for is the broken one of this file: a later source may have a sound copy
-            if m not in requested and m not in parsed:
-                # m is known from an IMPORTS clause only, so it names a MODULE; this file holds modules called differently
+            if not req and m not in parsed:
+                # m is known from an IMPORTS clause, so it names a MODULE; this file holds modules called differently
                 continue
+            if source_failed:
+                failed.pop(m, None)   # answered by a file whose modules are all known already
             accepted = True
             break
         if not accepted and m not in failed and m not in parsed:
@@ -513,7 +527,7 @@ def reference(world):
             ref['writes'][c] = 'never'
             ref['nogen'].add(c)
             continue
-        if opts['noDeps'] and c not in requested_canon:
+        if opts['noDeps'] and c not in requested_canon and c not in requested:
             ref['allowed'][c] = set(['untouched'])
             ref['writes'][c] = 'never'
             ref['nogen'].add(c)
